@@ -391,10 +391,10 @@ tzm_find_zn(const char *zn, size_t zz)
 		return p - zns;
 	}
 	/* otherwise append, first check if there's room */
-	if (p + zz + 4U >= ep) {
+	while (p + zz + 4U >= zns + znz) {
 		/* compute new p */
 		ptrdiff_t d = p - zns;
-		/* resize, double the size */
+		/* resize, double the size until the name fits */
 		p = (zns = realloc(zns, znz *= 2U)) + d;
 		memset(p, 0, (znz - (p - zns)) * sizeof(*zns));
 	}
@@ -414,8 +414,8 @@ tzm_add_mn(const char *mn, size_t mz, znoff_t off)
 		return;
 	}
 	/* first check if there's room */
-	if (p + 1U + (mz + 4U/*alignment*/) / sizeof(off) >= mns + mnz) {
-		/* resize, double the size */
+	while (p + 1U + (mz + 4U/*alignment*/) / sizeof(off) >= mns + mnz) {
+		/* resize, double the size until the name fits */
 		p = (mns = realloc(mns, (mnz *= 2U) * sizeof(*mns))) + mni;
 		memset((char*)p, 0, (mnz - (p - mns)) * sizeof(*mns));
 	}
